@@ -120,7 +120,7 @@ func (g *scopeGen) funcBody(head string) {
 }
 
 func (g *scopeGen) stat() {
-	k := g.r.Intn(33)
+	k := g.r.Intn(35)
 	if g.depth >= 4 && k >= 12 && k <= 20 {
 		k = g.r.Intn(10)
 	}
@@ -314,6 +314,16 @@ func (g *scopeGen) stat() {
 		}
 		g.line("local " + n1 + " <const>, " + n2 + []string{" <const>", " <close>", ""}[g.r.Intn(3)] + " = " + g.exp(1) + ", nil")
 		g.locals = append(g.locals, n1, n2)
+	case 33:
+		// identifiers behind a long comment / long string on their line
+		n := g.name()
+		g.line("local " + n + " = " + []string{"--[[c]] ", "--[==[ a ]] b ]==] ", "[[s]] .. ", "[=[x]=] .. "}[g.r.Intn(4)] + g.useName() + " .. " + g.useName())
+		g.locals = append(g.locals, n)
+	case 34:
+		// identifiers behind characters outside the BMP (two UTF-16 units each) and three-byte characters
+		n := g.name()
+		g.line("local " + n + " = " + []string{"\"😀\" .. ", "\"😀😀 中\" .. ", "\"中文\" .. ", "--[[😀]] "}[g.r.Intn(4)] + g.useName() + " .. " + g.useName())
+		g.locals = append(g.locals, n)
 	default:
 		g.line("local " + g.name() + ", " + g.name())
 	}
